@@ -1,79 +1,83 @@
-// Back end K harnesses for the stand-alone `non_blocking_atomic_stack::Stack` (included from /repo/src/ogre_std/ogre_stacks/non_blocking_atomic_stack.rs).
+import sys
+def gen(kind):
+    mod = f"ogre_std::ogre_stacks::{kind}"
+    lockfree = "!s.flag.load(std::sync::atomic::Ordering::SeqCst)" if kind=="non_blocking_atomic_stack" else "!s.concurrency_guard.is_locked()"
+    return f'''// Back end K harnesses for the stand-alone `{kind}::Stack` (included from /repo/src/ogre_std/ogre_stacks/{kind}.rs).
 // Inductive step from an ARBITRARY state (any head <= N, any buffer content): one push / pop of the REAL code against the LIFO model.
-// @module ogre_std::ogre_stacks::non_blocking_atomic_stack
+// @module {mod}
 // @sizes stack_proofs: n2=quick n4=quick n8=thorough
 #[allow(unused_imports)] use super::*;
 
 #[cfg(kani)]
-pub(crate) mod proofs {
+pub(crate) mod proofs {{
     use super::*;
     /// `_mm_pause` is not modelled by Kani; a spin hint has no effect on program state
-    pub(crate) fn noop() {}
+    pub(crate) fn noop() {{}}
 
     // @group stack_proofs
-    macro_rules! stack_proofs { ($($modname:ident: $n:expr;)*) => { $( mod $modname {
+    macro_rules! stack_proofs {{ ($($modname:ident: $n:expr;)*) => {{ $( mod $modname {{
         use super::*;
         const N: usize = $n;
         type S = Stack<u32, N, true, false>;
 
         /// the real constructor, then ANY abstract state: `h` elements `content[0..h)` (bottom..top); slots above are arbitrary garbage
-        fn any_stack() -> (S, u32, [u32; N]) {
+        fn any_stack() -> (S, u32, [u32; N]) {{
             let mut s = S::new(String::new());
             let h: u32 = kani::any(); kani::assume(h <= N as u32);
             let content: [u32; N] = kani::any();
             s.head = h;
             s.buffer = content;
             (s, h, content)
-        }
+        }}
 
         // @props C18
         #[kani::proof] #[kani::unwind(3)] #[kani::stub(std::hint::spin_loop, noop)]
-        fn push_is_lifo_push() {
+        fn push_is_lifo_push() {{
             let (s, h, content) = any_stack();
             let x: u32 = kani::any();
             let ok = s.push(x);
-            assert!(!s.flag.load(std::sync::atomic::Ordering::SeqCst),                                               "push: the lock is released on every exit");
+            assert!({lockfree},                                               "push: the lock is released on every exit");
             let k: usize = kani::any();
-            if h < N as u32 {
+            if h < N as u32 {{
                 assert!(ok,                                                  "push below capacity: accepted ('full' only if all slots are taken)");
                 assert!(s.head == h + 1 && s.len() == h as usize + 1,        "push: exactly one more element");
                 assert!(s.buffer[h as usize] == x,                           "push: the element is on top");
-                if k < h as usize { assert!(s.buffer[k] == content[k],      "push: elements below untouched (nothing lost)"); }
-            } else {
+                if k < h as usize {{ assert!(s.buffer[k] == content[k],      "push: elements below untouched (nothing lost)"); }}
+            }} else {{
                 assert!(!ok,                                                 "push at capacity: answers full");
                 assert!(s.head == h,                                         "push refused: size unchanged");
-                if k < N { assert!(s.buffer[k] == content[k],               "push refused: content unchanged"); }
-            }
+                if k < N {{ assert!(s.buffer[k] == content[k],               "push refused: content unchanged"); }}
+            }}
             kani::cover!(h == 0, "push on empty"); kani::cover!(h == N as u32, "push on full");
             kani::cover!(true, "end of harness reachable (vacuity guard)");
-        }
+        }}
 
         // @props C18
         #[kani::proof] #[kani::unwind(3)] #[kani::stub(std::hint::spin_loop, noop)]
-        fn pop_is_lifo_pop() {
+        fn pop_is_lifo_pop() {{
             let (s, h, content) = any_stack();
             let got = s.pop();
-            assert!(!s.flag.load(std::sync::atomic::Ordering::SeqCst),                                               "pop: the lock is released on every exit");
+            assert!({lockfree},                                               "pop: the lock is released on every exit");
             let k: usize = kani::any();
-            match got {
-                Some(v) => {
+            match got {{
+                Some(v) => {{
                     assert!(h > 0,                                           "pop: yields only if something was pushed");
                     assert!(v == content[h as usize - 1],                    "pop: yields the LAST pushed element (LIFO), nothing that was not pushed");
                     assert!(s.head == h - 1 && s.len() == h as usize - 1,    "pop: that element is gone (not returned twice)");
-                    if k < N && k + 1 < h as usize { assert!(s.buffer[k] == content[k], "pop: elements below untouched"); }
-                }
-                None => {
+                    if k < N && k + 1 < h as usize {{ assert!(s.buffer[k] == content[k], "pop: elements below untouched"); }}
+                }}
+                None => {{
                     assert!(h == 0,                                          "pop: 'empty' only if the stack is empty");
                     assert!(s.head == 0 && s.is_empty(),                     "pop on empty: unchanged");
-                }
-            }
+                }}
+            }}
             kani::cover!(h == 0, "pop on empty"); kani::cover!(h == N as u32, "pop on full");
             kani::cover!(true, "end of harness reachable (vacuity guard)");
-        }
+        }}
 
         // @props C18
         #[kani::proof] #[kani::unwind(3)] #[kani::stub(std::hint::spin_loop, noop)]
-        fn push_then_pop_returns_it_and_restores() {
+        fn push_then_pop_returns_it_and_restores() {{
             let (s, h, content) = any_stack();
             kani::assume(h < N as u32);
             let x: u32 = kani::any();
@@ -81,25 +85,28 @@ pub(crate) mod proofs {
             assert!(s.pop() == Some(x),                                      "pop right after push returns that element");
             assert!(s.head == h,                                             "size restored");
             let k: usize = kani::any();
-            if k < h as usize { assert!(s.buffer[k] == content[k],          "content below restored"); }
+            if k < h as usize {{ assert!(s.buffer[k] == content[k],          "content below restored"); }}
             kani::cover!(true, "end of harness reachable (vacuity guard)");
-        }
+        }}
 
         // @props C18
         #[kani::proof] #[kani::unwind(12)] #[kani::stub(std::hint::spin_loop, noop)]
-        fn fresh_stack_is_empty_and_holds_exactly_n() {
+        fn fresh_stack_is_empty_and_holds_exactly_n() {{
             let s = S::new(String::new());
             assert!(s.is_empty() && s.len() == 0 && s.pop().is_none(),       "new: empty");
             let mut i = 0u32;
-            while i < N as u32 { assert!(s.push(i),                          "new: accepts N elements"); i += 1; }
+            while i < N as u32 {{ assert!(s.push(i),                          "new: accepts N elements"); i += 1; }}
             assert!(!s.push(99),                                             "new: the (N+1)-th push answers full");
             assert!(s.pop() == Some(N as u32 - 1),                           "LIFO");
             kani::cover!(true, "end of harness reachable (vacuity guard)");
-        }
-    } )* } }
-    stack_proofs! {
+        }}
+    }} )* }} }}
+    stack_proofs! {{
         n2: 2;
         n4: 4;
         n8: 8;
-    }
-}
+    }}
+}}
+'''
+for k in ("non_blocking_atomic_stack",):
+    open(f"/verif/kani/{k}.rs","w").write(gen(k))
